@@ -24,6 +24,7 @@ import (
 	"io"
 	"os"
 	"os/exec"
+	"os/signal"
 	"sync"
 	"sync/atomic"
 	"syscall"
@@ -57,7 +58,7 @@ func cpuNow() (user, sys int64) {
 
 func budgetOf(op string) time.Duration {
 	switch op {
-	case "bswrite", "bsinit", "bsread", "dbput", "dbsave", "dbcreate", "dbreadall":
+	case "bswrite", "bsinit", "bsread", "dbput", "dbputfail", "dbsave", "dbcreate", "dbreadall":
 		return cpuBudgetBulk
 	}
 	return cpuBudgetRead
@@ -65,6 +66,9 @@ func budgetOf(op string) time.Duration {
 
 // childMain serves requests from stdin until EOF.
 func childMain() {
+	// injected write errors (sut.go putFail) lower RLIMIT_FSIZE for one call:
+	// the write must fail with EFBIG instead of the process being killed
+	signal.Ignore(syscall.SIGXFSZ)
 	in := bufio.NewReaderSize(os.Stdin, 1<<20)
 	out := bufio.NewWriterSize(os.Stdout, 1<<20)
 	var (
